@@ -463,6 +463,7 @@ func init() {
 		Level: "model_checking",
 		Rule: "Strict ping-pong of n rounds between a client thread and a handler thread over the stream-mode transport (response bytes visible only when flushed, request frames only once written), for every pairing of streaming client form x streaming target x codec relation x compression relation " +
 			"x rounds x message size (0, 1, 300, 5000 bytes) x handler read style (exact ReadFull, byte-wise, 32 KiB buffer, buffered reader) x handler flushing or not x envelope+payload in one or two writes; a subset also with ServeHTTP handed a buffering middleware writer that offers Unwrap(). All schedules of the two threads are explored (DFS, no preemption bound; scheduling points at every body read, write, flush, pool and mutex operation). " +
+			"Further configurations: the handler answers each request with two messages in one Write; the handler speaks first; a client-streaming method answered after the first request while the client waits for the answer. " +
 			"A state is a scheduling decision point; a trace is one complete schedule of the real implementation. Non-trivial = distinct configuration that completed at least two rounds.",
 		Assume:  []string{"stream-mode transport never flushes on its own (real HTTP/2 flushes a full buffer; a lost flush leaves the tail of a message invisible in both)", "every explored trace is an execution of the implementation itself (no separate model)"},
 		Custom:  c16Custom,
